@@ -5,6 +5,7 @@ CONSTANTS
   HashCheck = TRUE
   Collect = FALSE
   FollowUps = {"none"}
+  Configs = {"bf+bdf"}
   Emit = FALSE
 SPECIFICATION Spec
 INVARIANTS TypeOK GetBlockSound RangeOrder BusyLock
